@@ -314,9 +314,31 @@ func init() {
 					c.Fail("frame-ctor-panic", in, p)
 					return
 				}
-				got, want := msg.ToBytes(), ref.EncodeMsg(m)
+				// the system bytes were passed as a slice of the caller's array; the caller reuses the array before encoding
+				saved := m.System
+				for j := range m.System {
+					m.System[j] ^= 0xFF
+				}
+				got := msg.ToBytes()
+				m.System = saved
+				want := ref.EncodeMsg(m)
 				if !bytes.Equal(got, want) {
-					c.Fail("frame-bytes", in, fmt.Sprintf("ToBytes()=%x want %x", got, want))
+					c.Fail("frame-bytes", in, fmt.Sprintf("ToBytes()=%x want %x (the caller's system-bytes array was overwritten after the constructor returned)", got, want))
+				}
+				// the same header given through the producer, with the argument a window into a larger buffer
+				buf := append(append([]byte{0xEE, 0xEE}, saved[:]...), 0xEE, 0xEE, 0xEE, 0xEE, 0xEE, 0xEE)
+				var m2 *ast.DataMessage
+				if pp := catch(func() {
+					m2 = ast.NewDataMessage(m.Name, m.Stream, m.Function, m.W, m.Dir, it).SetSessionIDAndSystemBytes(m.Session, buf[2:6])
+				}); pp != nil {
+					c.Fail("frame-ctor-panic", in, fmt.Sprint(pp))
+					return
+				}
+				for j := range buf {
+					buf[j] = 0x5A
+				}
+				if got2 := m2.ToBytes(); !bytes.Equal(got2, want) {
+					c.Fail("frame-bytes", in, fmt.Sprintf("NewDataMessage(...).SetSessionIDAndSystemBytes(...).ToBytes()=%x want %x (argument buffer reused after the call)", got2, want))
 				}
 			}
 			sp = append(sp, h.Space{Name: "frame-stream-function-wbit", Count: product(128, 256, 2, 2),
@@ -342,6 +364,39 @@ func init() {
 					copy(m.System[:], sysAlphabet[i])
 					frame(c, m, true)
 					c.Case(0, true, "frame-system")
+				}})
+			// nesting depth: every depth 1..96 and powers of two (and their neighbours) up to 2049, as a chain and with a
+			// leaf / an empty list / a second chain beside every level (an explicit stack or a buffer that grows at a
+			// particular depth shows here and nowhere in the small trees)
+			var depths []int
+			for dd := 1; dd <= 96; dd++ {
+				depths = append(depths, dd)
+			}
+			for _, dd := range []int{127, 128, 129, 255, 256, 257, 511, 512, 513, 1023, 1024, 1025, 2047, 2048, 2049} {
+				depths = append(depths, dd)
+			}
+			sp = append(sp, h.Space{Name: "nesting-depth-x-shape", Count: product(len(depths), 4),
+				Describe: func(i uint64) interface{} {
+					d := unrank(i, len(depths), 4)
+					return fmt.Sprintf("%d nested lists, shape %s", depths[d[0]], []string{"chain", "leaf-after-each-level", "empty-list-before-each-level", "short-chain-beside-each-level"}[d[1]])
+				},
+				Run: func(c *h.Ctx, i uint64) {
+					d := unrank(i, len(depths), 4)
+					n := ref.Uints(ref.U1, 7)
+					for j := 0; j < depths[d[0]]; j++ {
+						switch d[1] {
+						case 0:
+							n = ref.List(n)
+						case 1:
+							n = ref.List(n, ref.Ascii("x"))
+						case 2:
+							n = ref.List(ref.List(), n)
+						default:
+							n = ref.List(ref.List(ref.List(ref.Bin(1))), n, ref.List(ref.List(ref.Bools(true))))
+						}
+					}
+					encCompare(c, "deep", n)
+					c.Case(0, true, "deep")
 				}})
 			// incomplete messages encode to exactly []byte{}
 			// wait bit {0,1,2} x session {set,unset} x variables {none, 1 at depth 0, 1 at depth 1, 2 at depth 2, ascii var, list var, ellipsis}
